@@ -196,4 +196,22 @@ func raftLog.GetUint64
   props C15
   requires LogOK(s) && vals8(s.cfHandles[stableTable], bytes(key))
   modifies lastGetKey, lastGetCF
+
+// ---- C16: backups through the node ----------------------------------------------------
+
+// exactly one backup is requested from the store, while the node lock is held
+func RaftNode.CreateBackup
+  props C16
+  requires n.balloon != nil && !isnil(n.db) && !isnil(n.log)
+  modifies everything, backupCalls, lastBackupMeta
+  ensures C16/one-backup: backupCalls == old(backupCalls) + 1
+func RaftNode.DeleteBackup
+  props C16
+  requires !isnil(n.db) && !isnil(n.log)
+  modifies everything, deleteBackupCalls, lastDeletedBackup
+  ensures C16/only-the-named-backup: deleteBackupCalls == old(deleteBackupCalls) + 1 && lastDeletedBackup == backupID
+func RaftNode.ListBackups
+  props C16
+  requires !isnil(n.db) && !isnil(n.log)
+  modifies everything
 @*/
